@@ -43,6 +43,11 @@ impl<'a> Repr for Cow<'a, str> {
         format!("{:?}", self.as_ref())
     }
 }
+impl Repr for () {
+    fn repr(&self) -> String {
+        "()".to_string()
+    }
+}
 impl<T: Repr> Repr for Vec<T> {
     fn repr(&self) -> String {
         let v: Vec<String> = self.iter().map(|x| x.repr()).collect();
